@@ -9,7 +9,8 @@ class C28(Spec):
     required_theorems = ("C28.chain_tx_unexpired_fee_chainid", "C28.chain_tx_signed",
                          "C28.chain_tx_signed_regression_old_preExec", "C28.chain_tx_unique", "C28.txheight_window_cached",
                          "C28.produced_block_clean")
-    partial = ()
+    partial = ("C28.chain_tx_unexpired_fee_chainid", "C28.chain_tx_signed", "C28.chain_tx_unique",
+               "C28.txheight_window_cached")   # hypothesis hns: no self-produced blocks among the deliveries
     refuted = ()
     quick_timeout = 900
     thorough_timeout = 5400
@@ -45,6 +46,15 @@ class C28(Spec):
                   "the model (generated cases do not depend on EventDelBlock timing); transaction groups and para-chain "
                   "transactions are not generated.")
     assumptions = (
+        "ProcessBlock calls are SERIALISED: the model is sequential, while the node dispatches EventSyncBlock / "
+        "EventBroadcastAddBlock / EventAddBlockDetail with `go chain.processMsg` and the first half of ProcessBlock "
+        "(blockExists, IsKnownOrphan, AddOrphanBlock) runs outside chainLock; the tie delivers one block at a time",
+        "blocks arrive from peers or the download path (hypothesis hns of every chain theorem): blocks the node produces "
+        "itself (PreExecBlock with errReturn=false) are covered by produced_block_clean (single step) and by the tie's "
+        "`produce` op only",
+        "hash laws (chain_tx_unique, txheight_window_cached): Transaction.Hash() covers Expire; Block.Hash covers parent "
+        "hash and height; genesis: height 0, no transactions, parent hash is no block's hash; hi+lo >= 1",
+        "the mempool admits correctly signed transactions only (hypothesis hpool of chain_tx_signed; C22's subject)",
         "same model and assumptions as C27 (chain control flow), execution verdict = Model/C27.lean preExec over oracle inputs",
         "mempool block events (EventAddBlock/EventDelBlock) take effect before the next block is executed",
         "restart: index and best-chain view are rebuilt from the whole main chain (chains shorter than InitBlockNum=10240); "
